@@ -8,6 +8,7 @@ import (
 	"os"
 	"path/filepath"
 	"runtime"
+	"runtime/pprof"
 	"sort"
 	"strconv"
 	"strings"
@@ -126,6 +127,12 @@ func cmdRun(args []string) int {
 			solver.SlowThreshold = float64(ms) / 1000
 		}
 		defer f.Close()
+	}
+	if pf := os.Getenv("GOSYM_CPUPROFILE"); pf != "" {
+		if f, err := os.Create(pf); err == nil {
+			pprof.StartCPUProfile(f)
+			defer pprof.StopCPUProfile()
+		}
 	}
 	t0 := time.Now()
 	s, err := driver.Open(cfg, []string{*pkg})
